@@ -9,6 +9,7 @@
    statements.  The same text is executed on exact rationals against irispie.RedVAR by harness/C18.py. *)
 From Coq Require Import String.
 From Verif Require Import lib.MxC18 lib.MxC18MC gen.RedVarGen model.RedVar proofs.RedVarProofs proofs.RedVarDataProofs proofs.RedVarStatements.
+From Verif Require model.Spectral proofs.SpectralProofs.
 From mathcomp Require Import all_ssreflect all_algebra.
 Set Implicit Arguments.
 Unset Strict Implicit.
@@ -227,3 +228,79 @@ Theorem C18_lag_stacking (T : Type) (dflt : T) (p N : nat) (ys : list (list T)) 
   /\ List.nth j (List.nth v (stack_y0 T p ys) nil) dflt = List.nth (p + j)%coq_nat (List.nth v ys nil) dflt.
 Proof. exact: C18_lag_stacking_stmt. Qed.
 Print Assumptions C18_lag_stacking.
+
+(* 12. "its reported ... eigenvalues ... are those of its companion form": what get_max_abs_eigenvalue and get_stability
+       report (model/Spectral.v, defined in terms of gen_max_abs_eigenvalue / gen_is_stable regenerated from
+       Variant._populate_eigenvalues / is_stable on this run) for ANY list of eigenvalues of any length and order, over any
+       type C of complex numbers with any modulus function into any totally pre-ordered type T ([leb] is <=):
+       the reported maximum is the modulus of one of the eigenvalues and no eigenvalue has a larger modulus (the spectral
+       radius), it does not depend on the order in which eigvals returns the eigenvalues, and the verdict is "stable"
+       exactly when every eigenvalue has modulus < 1, "unstable" exactly when one has modulus >= 1.
+       numpy.linalg.eigvals itself is a black box (the list [eigs]); the correspondence checks its output against the
+       exact characteristic polynomial of the model's companion matrix on every case. *)
+Theorem C18_max_abs_eigenvalue_is_spectral_radius (C T : Type) (modulus : C -> T) (leb : T -> T -> bool)
+    (of_nat : nat -> T) (cmax : list C -> C)
+    (leb_total : forall a b, leb a b = false -> leb b a = true)
+    (leb_trans : forall a b c, leb a b = true -> leb b c = true -> leb a c = true) (eigs : list C) :
+  eigs <> nil ->
+  exists r, Spectral.max_abs_eigenvalue modulus leb of_nat cmax eigs = Some r
+    /\ (exists z, List.In z eigs /\ r = modulus z)
+    /\ (forall z, List.In z eigs -> leb (modulus z) r = true).
+Proof. exact: SpectralProofs.max_abs_eigenvalue_is_spectral_radius. Qed.
+Print Assumptions C18_max_abs_eigenvalue_is_spectral_radius.
+
+Theorem C18_max_abs_eigenvalue_order_independent (C T : Type) (modulus : C -> T) (leb : T -> T -> bool)
+    (of_nat : nat -> T) (cmax : list C -> C)
+    (leb_total : forall a b, leb a b = false -> leb b a = true)
+    (leb_trans : forall a b c, leb a b = true -> leb b c = true -> leb a c = true) (eigs eigs' : list C) (r r' : T) :
+  Permutation.Permutation eigs eigs' ->
+  Spectral.max_abs_eigenvalue modulus leb of_nat cmax eigs = Some r ->
+  Spectral.max_abs_eigenvalue modulus leb of_nat cmax eigs' = Some r' ->
+  leb r r' = true /\ leb r' r = true.
+Proof. exact: SpectralProofs.max_abs_eigenvalue_perm. Qed.
+Print Assumptions C18_max_abs_eigenvalue_order_independent.
+
+Theorem C18_stability_verdict (C T : Type) (modulus : C -> T) (leb : T -> T -> bool)
+    (of_nat : nat -> T) (cmax : list C -> C)
+    (leb_total : forall a b, leb a b = false -> leb b a = true)
+    (leb_trans : forall a b c, leb a b = true -> leb b c = true -> leb a c = true) (eigs : list C) :
+  (Spectral.is_stable modulus leb of_nat cmax eigs = Some true
+     <-> eigs <> nil /\ forall z, List.In z eigs -> Spectral.ltb leb (modulus z) (of_nat 1%N) = true)
+  /\ (Spectral.is_stable modulus leb of_nat cmax eigs = Some false
+     <-> exists z, List.In z eigs /\ leb (of_nat 1%N) (modulus z) = true)
+  /\ (Spectral.is_stable modulus leb of_nat cmax eigs = None <-> eigs = nil).
+Proof. exact: SpectralProofs.stability_verdict. Qed.
+Print Assumptions C18_stability_verdict.
+
+(* one entry per variant, computed from that variant's eigenvalues alone *)
+Theorem C18_spectral_accessors_per_variant (C T : Type) (modulus : C -> T) (leb : T -> T -> bool)
+    (of_nat : nat -> T) (cmax : list C -> C) (variants : list (list C)) (i : nat) :
+  List.nth i (Spectral.get_max_abs_eigenvalue modulus leb of_nat cmax variants) None
+    = Spectral.max_abs_eigenvalue modulus leb of_nat cmax (List.nth i variants nil)
+  /\ List.nth i (Spectral.get_stability modulus leb of_nat cmax variants) None
+    = Spectral.is_stable modulus leb of_nat cmax (List.nth i variants nil)
+  /\ List.nth i (Spectral.get_eigenvalues variants) nil = List.nth i variants nil
+  /\ List.length (Spectral.get_max_abs_eigenvalue modulus leb of_nat cmax variants) = List.length variants
+  /\ List.length (Spectral.get_stability modulus leb of_nat cmax variants) = List.length variants.
+Proof. exact: SpectralProofs.accessors_per_variant. Qed.
+Print Assumptions C18_spectral_accessors_per_variant.
+
+(* an order embedding f (on a domain P closed under max) commutes with the maximum: the maximum of the squared moduli
+   re^2 + im^2 computed by the executable instance in exact rationals is the square of the maximum modulus *)
+Theorem C18_max_commutes_with_order_embedding (T T' : Type) (leb : T -> T -> bool) (leb' : T' -> T' -> bool)
+    (f : T -> T') (P : T -> Prop)
+    (f_embeds : forall a b, P a -> P b -> leb a b = leb' (f a) (f b)) (l : list T) (x : T) :
+  P x -> List.Forall P l -> f (Spectral.max_of leb x l) = Spectral.max_of leb' (f x) (List.map f l).
+Proof. exact: SpectralProofs.max_of_embedding. Qed.
+Print Assumptions C18_max_commutes_with_order_embedding.
+
+(* non-vacuity: the rationals with squared moduli satisfy the hypotheses (total, transitive, squaring embeds the
+   non-negative rationals), and the two shapes in which "largest modulus" differs from "largest eigenvalue" evaluate
+   as they should: a dominant negative root -5/4 (unstable), a dominant complex pair 1/8 +- 7/8 i (stable) *)
+Theorem C18_spectral_hypotheses_satisfiable :
+  (forall a b, SpectralProofs.Qleb a b = false -> SpectralProofs.Qleb b a = true)
+  /\ (forall a b c, SpectralProofs.Qleb a b = true -> SpectralProofs.Qleb b c = true -> SpectralProofs.Qleb a c = true)
+  /\ (forall a b, QArith_base.Qle (QArith_base.inject_Z BinNums.Z0) a -> QArith_base.Qle (QArith_base.inject_Z BinNums.Z0) b ->
+        SpectralProofs.Qleb a b = SpectralProofs.Qleb (QArith_base.Qmult a a) (QArith_base.Qmult b b)).
+Proof. exact: SpectralProofs.spectral_hypotheses_satisfiable. Qed.
+Print Assumptions C18_spectral_hypotheses_satisfiable.
